@@ -102,3 +102,9 @@ fn c08_2a_add_timer_deadline_is_exact() {
 pub(crate) fn mk_timeout_data<T>(data: T) -> TimeoutData<T> {
     TimeoutData { time: 0, data }
 }
+
+/// a timer list of which only the (empty) heap exists: `schedule_timer` on it looks at the heap, finds nothing and returns
+/// None without touching the interval map (HashMap construction alone exceeds CBMC's budget)
+pub(crate) unsafe fn init_empty_heap_only<T>(p: *mut TimeOutList<T>) {
+    std::ptr::addr_of_mut!((*p).timer_bh).write(Mutex::new(BinaryHeap::new()));
+}
